@@ -6,6 +6,8 @@ LEVEL_NOTE = ("Trusted base: CPython 3.12 (/venv/bin/python), eval/tokenize/frac
               "oracles under /verif/vf, and that sfc_models imports from the /repo working tree (asserted at "
               "start, recorded in evidence).")
 CLAIMS = {
+ 'C11': ("sweep counting by an instrumented user function, state-after-failure comparison with a cut reference run, contraction=>success, exhaustive reserved-name enumeration, ill-formed declarations",
+         "Held on K observed executions: hostile systems switched on at a drawn period fail loudly within cap+1 sweeps leaving earlier periods intact; contractions (factor <= 0.8) solve within the default cap; all reserved names and ill-formed declarations are rejected before any series exists (name list enumerated completely).", "3/C11"),
  'C03': ("differential execution reduction on/off on the same text: key sets and every value for k>=0 (1e-12 acyclic, 1e-8 cyclic)",
          "Held on K observed pairs: systems with alias chains, aliases of every variable class, derived trees and initial conditions give the same series with and without reduction. Pairs where either run fails to converge are inconclusive.", "3/C03"),
  'C10': ("by-construction expectations on lengths, exogenous values, initial conditions, lags, time axis; rejection cases; model-level SIM builds",
